@@ -716,7 +716,9 @@ def c12_corpus(tier, seed):
     rich = [('lifetime', "'a", None, None), ('type', 'T', 'Marker', None), ('const', 'N', None, None), ('type', 'U', None, 'u8')]
     modes = ['*', False, ('empty', ''), ('falselist', ''), ('list', 'T: {tr}'), ('str', 'T: {tr}'), ('liststr', 'U: {tr}'), ('list', 'T: {tr}, U: {tr}'), ('list', 'Option<U>: {tr}'), ('list', 'U: Iterator<Item = T>')]
     for tr in ['Debug', 'Clone', 'PartialEq', 'Hash', 'Default', 'PartialOrd', 'Ord', 'Eq', 'Copy']:
-        sel = modes if tier != 'quick' else [modes[0], modes[1], modes[(len(tr) % 3) + 2], modes[(len(tr) % 4) + 5]]
+        # predicate lists with a trailing comma, in the string and in the token spelling
+        trailing = [('str', 'T: {tr},'), ('list', 'T: {tr}, U: {tr},'), ('liststr', 'U: {tr},')]
+        sel = (modes + trailing) if tier != 'quick' else [modes[0], modes[1], modes[(len(tr) % 3) + 2], modes[(len(tr) % 4) + 5], trailing[len(tr) % 3], trailing[(len(tr) + 1) % 3]]
         for mi, mode in enumerate(sel):
             m = mode
             if isinstance(mode, tuple):
